@@ -381,6 +381,8 @@ class Exec:
             raise OutOfSubset(f"class attribute {obj.name}.{attr}")
         if isinstance(obj, NS):
             return getattr(obj, attr)
+        if isinstance(obj, _Builtin) and attr == "__name__":
+            return obj.name
         if isinstance(obj, (AList, ADict, ASet, OMap, UMap, list, dict, set, frozenset, tuple, str)) or (
             is_z3(obj) and z3.is_string(obj)
         ):
